@@ -212,7 +212,8 @@ func (hm *HostsMap) rebuildMatchFiles() (matchFiles []*MatchFile) {
 			e1 := entryList[i]
 			e2 := entryList[j]
 			if e1.headers.equals(e2.headers) {
-				return e1.path > e2.path
+				// case insensitive, see overlaps()
+				return strings.ToLower(e1.path) > strings.ToLower(e2.path)
 			}
 			return e1.hasFilter()
 		})
@@ -302,11 +303,14 @@ func (hm *HostsMap) rebuildMatchFiles() (matchFiles []*MatchFile) {
 // Exact is removed from the check because it always has priority and never overlaps
 // Regex is removed because all of its entries are processed together, giving priority to longer regexps
 func overlaps(e1, e2 *HostsMapEntry) bool {
+	// Begin is case insensitive and has its path already in lower case, so the
+	// paths are compared in lower case: a mixed case Prefix path must be seen
+	// as nested with a Begin one, and the other way around.
 	return e1.match != e2.match &&
 		e1.path != e2.path &&
 		e1.match != MatchExact && e2.match != MatchExact &&
 		e1.match != MatchRegex && e2.match != MatchRegex &&
-		strings.HasPrefix(e1.path, e2.path)
+		strings.HasPrefix(strings.ToLower(e1.path), strings.ToLower(e2.path))
 }
 
 func findOrCreateMatchFileIfOverlaps(order *list.List, e1, e2 *HostsMapEntry) {
